@@ -530,16 +530,30 @@ def check_filter_discipline(ctx):
             return next(iter(firsts)) if len(firsts) == 1 else None
 
         def checked_on(node):
-            """{label: name} for a test node that decides check_all_param(<name>)."""
+            """{label: {names}} for a test node whose outcome implies check_all_param(<name>) (conjuncts of `and` on the true edge,
+            disjuncts `not check_all_param(x)` of `or` on the false edge)."""
             if node.kind != 'test' or node.ast is None:
                 return {}
             t = node.ast if isinstance(node.ast, ast.expr) else getattr(node.ast, 'test', None)
-            neg = False
-            if isinstance(t, ast.UnaryOp) and isinstance(t.op, ast.Not):
-                t, neg = t.operand, True
-            if isinstance(t, ast.Call) and call_name(t) == 'check_all_param' and t.args and isinstance(t.args[0], ast.Name):
-                return {('false' if neg else 'true'): t.args[0].id}
-            return {}
+
+            def facts(e, truth):
+                if isinstance(e, ast.UnaryOp) and isinstance(e.op, ast.Not):
+                    return facts(e.operand, not truth)
+                if isinstance(e, ast.Call) and call_name(e) == 'check_all_param' and e.args and isinstance(e.args[0], ast.Name):
+                    return {e.args[0].id} if truth else set()
+                if isinstance(e, ast.BoolOp):
+                    if (isinstance(e.op, ast.And) and truth) or (isinstance(e.op, ast.Or) and not truth):
+                        out = set()
+                        for v in e.values:
+                            out |= facts(v, truth)
+                        return out
+                return set()
+            out = {}
+            for lab, truth in (('true', True), ('false', False)):
+                fs = facts(t, truth) if t is not None else set()
+                if fs:
+                    out[lab] = fs
+            return out
 
         def transfer(node, st):
             # state: set of ('ok', name) facts "check_all_param(name) holds" and ('car', carrier, name) facts "carrier holds (name, flag)"
@@ -558,8 +572,10 @@ def check_filter_discipline(ctx):
             out = frozenset(st)
             ck = checked_on(node)
             if ck:
-                (lab, name), = ck.items()
-                return {lab: frozenset(st | {('ok', name)}), '*': out}
+                res = {'*': out}
+                for lab, names in ck.items():
+                    res[lab] = frozenset(st | {('ok', nm) for nm in names})
+                return res
             return out
 
         ins = solve(cfg, frozenset(), transfer, lambda a_, b_: a_ & b_)
